@@ -16,8 +16,8 @@ def run(mu):
         if s.count(mu["old"]) != 1:
             return mu, "SITE-NOT-FOUND", ""
         open(p, "w").write(s.replace(mu["old"], mu["new"]))
-        env = {**os.environ, "VERIF_REPO": d, "VERIF_SCRATCH": d + "/out", "VERIF_JOBS": "4"}
-        r = subprocess.run([os.path.join(HERE, "check"), mu["prop"]], env=env, capture_output=True, text=True)
+        env = {**os.environ, "VERIF_REPO": d, "VERIF_SCRATCH": d + "/out", "VERIF_JOBS": "4", "VERIF_TIER": "quick"}
+        r = subprocess.run([os.path.join(HERE, "check"), mu["prop"], "--tier", "quick"], env=env, capture_output=True, text=True)
         lines = [l for l in r.stdout.splitlines() if l.startswith(("VIOLATION", "UNDECIDED", "CHECKER", "HELD"))]
         verdict = {0: "held", 1: "violation", 2: "undecided", 3: "checker-error"}.get(r.returncode, str(r.returncode))
         return mu, verdict, (lines[0] if lines else "")[:200]
